@@ -540,6 +540,14 @@ def check_sampled_keys(idx: Index, rep: Report):
     def reversed_for(use_ordering, order) -> bool:
         fo = Folder(env={"state_binstr": "AB", "use_ordering": use_ordering, "self.statevector_order": order})
         try:
+            # locals computed between the padding and the return (a flag, the reversed string) are folded on the way
+            after = False
+            for st in f.node.body:
+                if isinstance(st, ast.Assign) and norm(st.targets[0]) == "state_binstr":
+                    after = True
+                    continue
+                if after and isinstance(st, (ast.Assign, ast.If, ast.AugAssign)):
+                    fo.stmt(st)
             v = fo.expr(rets[0].value)
         except (Undecidable, Raised) as e:
             raise AnalysisError(f"_int_to_binstr return not foldable: {e}")
